@@ -46,7 +46,7 @@ SPEC = dict(
           "the three load queries first. non-trivial = at least one Block was acknowledged and at least one oracle evaluation "
           "with a definite expectation followed; distinct = distinct (stratum, security, hosts, sequence of calls with outcomes, "
           "rounds with dial results and connection counts) x schedule hash"),
-    probes=["stratum-full-stack", "stratum-hooks-direct", "stratum-full-stack-quic", "punch-round", "punch-with-twin", "punch-succeeded", "punched-conn-handed-out",
+    probes=["stratum-full-stack", "stratum-hooks-direct", "stratum-full-stack-quic", "backoff-kept", "peerstore-addrs-kept", "punch-round", "punch-with-twin", "punch-succeeded", "punched-conn-handed-out",
             "punch-returned-conn-direct", "rule-change-mid-punch", "punch-round-with-blocked-dialler", "punch-delay-0s",
             "punch-delay-50ms", "punch-delay-1s", "punch-delay-4.9s",
             "G-knows-quic", "G-knows-webtransport", "G-knows-tcp", "G-knows-quic+webtransport", "G-knows-quic+tcp",
